@@ -197,6 +197,29 @@ func init() {
 		}
 		return fmt.Sprintf("ok %s %d", entityID(e), n)
 	}
+	// debsigseq buf role1 keyring1 role2 keyring2 ... -> ONE Load, then the checks in that order on the same *Deb
+	ops["debsigseq"] = func(a []string) string {
+		d, err := deb.Load(bytes.NewReader([]byte(arg(a, 0))), "x.deb")
+		if err != nil {
+			return "loaderr"
+		}
+		defer d.Close()
+		out := []string{}
+		for i := 1; i+1 < len(a); i += 2 {
+			kr := keyringOf(a[i+1])
+			var el openpgp.EntityList
+			if kr != nil {
+				el = *kr
+			}
+			e, err := d.CheckDebsig(el, a[i])
+			if err != nil || e == nil {
+				out = append(out, "err")
+			} else {
+				out = append(out, "ok:"+entityID(e))
+			}
+		}
+		return showList(out)
+	}
 	// zstd / lzma encoders for the package builder (Python has neither in its standard library here)
 	ops["compress"] = func(a []string) string {
 		var buf bytes.Buffer
